@@ -162,6 +162,12 @@ def ctutilVerifySCT (P : Prims) (key : Key) (allow : Bool) (sct : SCT) (e : Entr
   | .err => .err
   | .panic => .panic
 
+/-- internal/witness/verifier WitnessVerifier.VerifySignature on a CosignedSTH: `verdicts` are the outcomes of
+SignatureVerifier.VerifySignature (= `verifySignature` with the witness key over the TLS encoding of the embedded
+SignedTreeHead) for the witness signatures in order.  Some signature must verify; with no signature at all nothing does. -/
+def witnessVerify (verdicts : List Outcome) : Outcome :=
+  if verdicts.any (fun o => o == .ok) then .ok else .err
+
 inductive Loaded (α : Type) | ok (v : α) | err | panic
 deriving Repr, DecidableEq
 
